@@ -483,6 +483,14 @@ def persistChannel (s : Setup) : ChannelEntry := ⟨s, s.channelValue⟩
 /-- the setup a restored channel signs with: the signer keys' amount comes from `channel_value_satoshis` -/
 def restoreChannel (e : ChannelEntry) : Setup := { e.setup with channelValue := e.channelValueSat }
 
+/-! ## Second setup of a ready channel
+
+`Node::setup_channel` on a `ChannelSlot::Ready`: `if c.setup != setup { Err } else { Ok(c) }` — only the identical
+setup is acknowledged, and the channel keeps the setup it has. -/
+
+def resetupReady (cur new : Setup) : Except Kind Setup :=
+  if cur ≠ new then .error .invalidArg else .ok cur
+
 /-! ## Dust thresholds of `validate_commitment_tx` (policy-commitment-outputs-trimmed)
 
 Not used by `canon` (LDK's builder does not trim); stated here because the property speaks of
